@@ -469,7 +469,7 @@ func (w *World) phiControlsExit(phi *ssa.Phi, l *natLoop) bool {
 
 func ruleC03R4(w *World, r *Report) {
 	const rule = "C03/R4"
-	r.rule(rule, "every natural loop of the lexer, parser, splitter and quoting code has a progress event on each feasible cycle: a token consumption at a point whose kind state excludes <eof> (nextToken at end of input is a no-op), a call summarised as must-consume for the kind state of the cycle, a byte-cursor advance (skip/skipN) or a `pos != saved pos` edge, a strictly increasing counter that controls an exit test, or a range over a finite value", 55)
+	r.rule(rule, "every natural loop of the lexer, parser, splitter and quoting code has a progress event on each feasible cycle: a token consumption at a point whose kind state excludes <eof> (nextToken at end of input is a no-op), a call summarised as must-consume for the kind state of the cycle, a byte-cursor advance (skip/skipN) or a `pos != saved pos` edge, a strictly increasing counter that controls an exit test, or a range over a finite value", 28)
 	tk := w.TKAI()
 	if miss := tk.anchorsOK(); len(miss) > 0 {
 		r.errorf("TKAI anchors missing: %v", miss)
